@@ -21,3 +21,126 @@ def run(repo, env):
     finally:
         shutil.rmtree(tmp, ignore_errors=True)
     return out
+
+
+# ---------------------------------------------------------------------------------------------------------------------
+# Other configurations (C12 quantifies over "any future refresh or hand edit" of the JSON): the real generator is built
+# once and run on derived JSON configurations; its three output files are compared with an oracle rendering computed here
+# from the JSON by the property's rule (non-deprecated license -> active list, deprecated -> deprecated list,
+# non-deprecated exception -> exception list, in JSON order; a record without the flag is not deprecated).  BOUNDED: a
+# fixed family of configurations, labelled as such in the evidence.
+import copy, json
+
+
+def _split_template(path):
+    """header / footer of a committed generated file (everything before the first and after the last entry line)"""
+    lines = open(path, encoding="utf-8").read().split("\n")
+    idx = [i for i, l in enumerate(lines) if l.startswith('\t\t"') and l.endswith('",')]
+    if not idx:
+        return None
+    return "\n".join(lines[:idx[0]]) + "\n", "\n".join(lines[idx[-1] + 1:])
+
+
+def _render(tpl, ids):
+    return tpl[0] + "".join('\t\t"%s",\n' % i for i in ids) + tpl[1]
+
+
+def _configs(lic, exc):
+    """(name, licenses.json object, exceptions.json object)"""
+    out = []
+
+    def both(name, f):
+        l2, e2 = copy.deepcopy(lic), copy.deepcopy(exc)
+        f(l2["licenses"], "isDeprecatedLicenseId")
+        f(e2["exceptions"], "isDeprecatedLicenseId")
+        out.append((name, l2, e2))
+
+    def omit_false(rs, k):
+        for r in rs:
+            if r.get(k) is False:
+                del r[k]
+    both("false flags omitted", omit_false)
+
+    def null_false(rs, k):
+        for r in rs:
+            if r.get(k) is False:
+                r[k] = None
+    both("false flags null", null_false)
+    both("records reversed", lambda rs, k: rs.reverse())
+
+    def flip(rs, k):
+        for r in rs:
+            r[k] = not r.get(k, False)
+    both("every flag flipped", flip)
+
+    def dep_first_then_omitted(rs, k):
+        rs.sort(key=lambda r: not r.get(k, False))  # deprecated records first (stable)
+        omit_false(rs, k)
+    both("deprecated records first, false flags omitted", dep_first_then_omitted)
+
+    def extra(rs, k):
+        idk = "licenseId" if rs and "licenseId" in rs[0] else "licenseExceptionId"
+        rs.insert(0, {idk: "Zz-Verif-New-1.0", k: False, "name": "new record", "seeAlso": [], "unknownField": {"a": [1, 2]}})
+        rs.append({idk: "Zz-Verif-Old-0.9", k: True, "name": "old record"})
+        rs.insert(len(rs) // 2, {idk: "Zz-Verif-Mid-2.0-only", "name": "no flag at all"})
+    both("records added (first, middle without flag, last deprecated)", extra)
+    both("three records only", lambda rs, k: rs.__delitem__(slice(3, None)))
+    both("no records", lambda rs, k: rs.__delitem__(slice(0, None)))
+
+    def dup_keys(rs, k):
+        for r in rs[::7]:
+            r["isOsiApproved"] = True
+            r["referenceNumber"] = 0
+    both("unrelated fields changed", dup_keys)
+    return out
+
+
+def run_configs(repo, env):
+    """returns (number of configurations run, list of discrepancies)"""
+    tmp = tempfile.mkdtemp(prefix="verif_gencfg_")
+    bad = []
+    n = 0
+    try:
+        src = os.path.join(tmp, "src")
+        shutil.copytree(repo, src, ignore=shutil.ignore_patterns(".git"))
+        gen = os.path.join(tmp, "gen")
+        b = subprocess.run(["go", "build", "-o", gen, "."], cwd=os.path.join(src, "cmd"), env=env, capture_output=True, text=True, timeout=300)
+        if b.returncode != 0:
+            return 0, [{"generator": "does not build", "output": b.stderr[-500:]}]
+        lic = json.load(open(os.path.join(repo, "cmd", "licenses.json"), encoding="utf-8"))
+        exc = json.load(open(os.path.join(repo, "cmd", "exceptions.json"), encoding="utf-8"))
+        tpls = [_split_template(os.path.join(repo, f)) for f in FILES]
+        if any(t is None for t in tpls):
+            return 0, [{"generator": "a committed generated file has no entry lines"}]
+        for name, l2, e2 in _configs(lic, exc):
+            n += 1
+            d = os.path.join(tmp, "cfg%d" % n)
+            os.makedirs(os.path.join(d, "cmd"))
+            os.makedirs(os.path.join(d, "spdxexp", "spdxlicenses"))
+            json.dump(l2, open(os.path.join(d, "cmd", "licenses.json"), "w", encoding="utf-8"), ensure_ascii=False, indent=2)
+            json.dump(e2, open(os.path.join(d, "cmd", "exceptions.json"), "w", encoding="utf-8"), ensure_ascii=False, indent=2)
+            r = subprocess.run([gen, "extract", "-l", "-e"], cwd=os.path.join(d, "cmd"), env=env, capture_output=True, text=True, timeout=120)
+            if r.returncode != 0:
+                bad.append({"configuration": name, "generator": "failed", "output": (r.stdout + r.stderr)[-300:]})
+                continue
+            dep = lambda rec: rec.get("isDeprecatedLicenseId") is True
+            want = [[x["licenseId"] for x in l2["licenses"] if not dep(x)],
+                    [x["licenseId"] for x in l2["licenses"] if dep(x)],
+                    [x["licenseExceptionId"] for x in e2["exceptions"] if not dep(x)]]
+            for f, tpl, ids in zip(FILES, tpls, want):
+                try:
+                    got = open(os.path.join(d, f), encoding="utf-8").read()
+                except OSError:
+                    bad.append({"configuration": name, "file": f, "difference": "not written"})
+                    continue
+                exp = _render(tpl, ids)
+                if got != exp:
+                    gl = [l.strip().strip('",') for l in got.split("\n") if l.startswith('\t\t"')]
+                    extra_ids = [i for i in gl if i not in ids][:3]
+                    missing = [i for i in ids if i not in gl][:3]
+                    bad.append({"configuration": name, "file": f,
+                                "difference": "generator output differs from what the JSON says: %d ids written, %d expected; e.g. wrongly present %s, missing %s"
+                                % (len(gl), len(ids), extra_ids, missing)})
+    finally:
+        shutil.rmtree(tmp, ignore_errors=True)
+    return n, bad
